@@ -280,7 +280,7 @@ Proof.
   induction l as [|e r IH]; simpl; intro N; [apply sorted_nil|].
   inversion N as [|? ? Hn N']; subst. apply insert_sorted; [exact (IH N')|].
   intro H. apply Hn. apply in_map_iff in H. destruct H as [x [Hx Hi]].
-  apply sort_in in Hi. apply in_map_iff. eauto.
+  apply (proj1 (sort_in _ _)) in Hi. apply in_map_iff. eauto.
 Qed.
 
 (** * Main results *)
